@@ -295,7 +295,7 @@ fn main() {
     run.assume("float divisors/numerators that are not normal are outside the property");
 
     // S1: small-scope pairs
-    let nmax: i64 = tier.pick(300, 1000);
+    let nmax: i64 = tier.pick(300, 2000);
     run.bound("S1_unscaled", format!("1..={}", nmax));
     let scale_pairs: [(i128, i128); 4] = [(0, 0), (2, 0), (0, 3), (-2, 1)];
     run.par("S1 small-scope quotients", nmax as usize, |i| {
